@@ -18,6 +18,10 @@ AsCodedAll == {{}, {"FigureNameRaw", "TextSinkUtf8", "BomPerWrite"}}
 StrSinks(n) == UNION {[1..m -> {cPLAIN, cPLUS, cTILDE, cNONASCII, cLT}] : m \in 0..n}
 StrSinks3 == StrSinks(3)
 StrSinks2 == StrSinks(2)
+\* strings of format metacharacters: %%, %s, %d, a trailing %, {0}, {} ...
+StrFormat(n) == UNION {[1..m -> {cPLAIN, cPCT, cLBRACE, cRBRACE, cFMT}] : m \in 1..n}
+StrFormat2 == StrFormat(2) \cup {<<cLBRACE, cFMT, cRBRACE>>, <<cPCT, cPCT, cFMT>>, <<cPCT, cLT, cFMT>>}
+StrFormat3 == StrFormat(3)
 DevBypass == {{"AsciiBypass"}}
 DevFig == {{"FigureNameRaw"}}
 DevUtf8 == {{"TextSinkUtf8"}}
